@@ -2004,6 +2004,9 @@ def _pnorm_diagweight(x, p, w):
     # This is faster than first applying the weights and then summing with
     # BLAS dot or nrm2
     xp = np.abs(x.data.ravel(order))
+    if not is_floating_dtype(xp.dtype):
+        # The in-place operations below need a floating point array
+        xp = xp.astype(float)
     if p == float('inf'):
         xp *= w.ravel(order)
         return np.max(xp)
